@@ -23,7 +23,7 @@ PROPS = {
         "explanation": "translation validation of solver answers by a certified checker",
     },
     "C02": {
-        "extra_props": ["C05fp"],
+        "extra_props": ["C05fp", "C02gen"],
         "level": "translation_validation",
         "rule": "generated programs of the Horn fragment (structs of arity 0-2, 1-3 traits with 0-1 parameters, optionally #[coinductive], 2-7 impls: "
                 "concrete, structural with where-clause, blanket, repeated parameter, growing/polymorphic-recursive, concrete cycle edges) lowered by "
@@ -141,6 +141,7 @@ PROPS = {
         "explanation": "translation validation of solver answers by a certified checker",
     },
     "C06": {
+        "extra_props": ["C02gen", "C06sem"],
         "level": "translation_validation",
         "rule": "150 generated programs: 2-5 traits (a quarter with a parameter) with 0-2 where-clauses each (supertraits Self: Tj, bounds on the trait's own parameter; "
                 "diamonds and cycles arise), 2-3 structs, 0-3 impls (plain and conditional); 3 conclusions each posed as forall<X>{ if (hyps) {C} } and forall<X>{ C } "
